@@ -95,6 +95,8 @@ def mk_val(world, v, ctx):
         if v.get("outer") == "tuple":
             return tuple(inner)
         return inner
+    if t == "lov":      # a list of Vectors
+        return [S.Vector(V.dec_list(x)) for x in v["v"]]
     if t == "dict":
         return {V.dec(n): mk_val(world, x, ctx) for n, x in v["items"]}
     if t == "tab":
@@ -273,6 +275,16 @@ def _getitem(world, rec, ctx):
         e = world.bind(rec.get("out"), res, role=("owned",), born="row", depth=_depth(world, rec["h"]))
         if e is not None:
             e.tags.add("row")
+            # the names this row answers to when it is handed out (unambiguous accessors only)
+            from .gen import simple_accessor
+            try:
+                names = list(o.column_names())
+                for j in range(len(names)):
+                    acc = simple_accessor(names, j)
+                    if acc is not None:
+                        e.tags.add("acc:" + acc)
+            except Exception as ex:
+                ex = None
         return e
     ctx.result_scalar = V.tv(res)
     return None
